@@ -129,9 +129,11 @@ def gen_cases(tier, seed):
 
 
 MULTI = [("scd", "nooa"), ("scd", "nb"), ("authn", "session-nooa"), ("assertion", "cond-nooa"), ("assertion", "cond-nb"),
-         ("conditions", "cond-nooa"), ("conditions", "cond-nb"), ("scdata", "nooa")]
+         ("conditions", "cond-nooa"), ("conditions", "cond-nb"), ("scdata", "nooa"),
+         # an assertion carried as advice inside the main one (its attributes are merged into the identity)
+         ("advice", "cond-nooa"), ("advice", "cond-nb")]
 # what the sibling occurrences look like: a comfortable copy of the same element, or (for confirmations) another method without data
-MULTI_OTHER = {"scd": ["bearer-ok", "holder-of-key", "sender-vouches-no-data"], "authn": ["ok"], "assertion": ["ok"], "conditions": ["ok"], "scdata": ["ok"]}
+MULTI_OTHER = {"scd": ["bearer-ok", "holder-of-key", "sender-vouches-no-data"], "authn": ["ok"], "assertion": ["ok"], "conditions": ["ok"], "scdata": ["ok"], "advice": ["plain", "encrypted"]}
 
 
 def setup_worker(ctx):
@@ -183,6 +185,8 @@ def run_multi(case, ctx):
     d = d.set_attr(d.find(xk.SAML, "SubjectConfirmationData")[0], "NotOnOrAfter", clock.iso(T0 + W + far))
     d = d.set_attr(d.find(xk.SAML, "AuthnStatement")[0], "SessionNotOnOrAfter", clock.iso(T0 + W + far + 777))
     elem, bound, pos, other = case["elem"], case["bound"], case["pos"], case["other"]
+    if elem == "advice":
+        return run_advice(case, ctx, sp, d)
     target = {"scd": "SubjectConfirmation", "authn": "AuthnStatement", "assertion": "Assertion", "conditions": "Conditions", "scdata": "SubjectConfirmationData"}[elem]
     node = d.find(xk.SAML, target)[0]
     good = d.standalone(node).decode("utf-8")
@@ -240,6 +244,40 @@ def run_multi(case, ctx):
     return {"outcome": outcome, "nontrivial": shape_ok or accepted, "violations": viol,
             "counters": {"multi_cases": 1, "multi_rejected_by:" + (type(exc).__name__ if exc is not None else "accepted" if accepted else "None"): 1, "must_reject": 1,
                          "multi_shape_accepted_when_all_in_range": int(shape_ok), "multi_shape_refused_anyway": int(not shape_ok)}}
+
+
+def run_advice(case, ctx, sp, d):
+    W, off, bound = case["W"], case["off"], case["bound"]
+    main = d.find(xk.SAML, "Assertion")[0]
+    p = d.prefix(main)
+    docs = {}
+    for which in ("in-range", "out-of-range"):
+        inner = xk.Doc(d.standalone(main))
+        inner = inner.set_attr(inner.root, "ID", "id-advice-assertion")
+        if which == "out-of-range":
+            n = inner.find(xk.SAML, "Conditions")[0]
+            inner = inner.set_attr(n, "NotOnOrAfter" if bound == "cond-nooa" else "NotBefore", clock.iso(T0 - W - off) if bound == "cond-nooa" else clock.iso(T0 + W + off))
+        txt = inner.text()
+        if txt.startswith("<?xml"):
+            txt = txt[txt.index("?>") + 2:]
+        txt = txt.replace("Ann", "Mallory").replace("givenName", "sn").replace("2.5.4.42", "2.5.4.4")
+        if case["other"] == "encrypted":
+            ed = xk.encrypt_fragment(txt, fed.key(2)[1])
+            txt = "<%s:EncryptedAssertion>%s</%s:EncryptedAssertion>" % (p, ed.decode("utf-8") if isinstance(ed, bytes) else ed, p)
+        docs[which] = d.insert_after(d.find(xk.SAML, "Conditions")[0], "<%s:Advice>%s</%s:Advice>" % (p, txt, p)).text()
+    r0, e0 = fed.deliver(sp, docs["in-range"], dict(OUT))
+    shape_ok = r0 is not None and "Mallory" in repr(getattr(r0, "ava", None))
+    resp, exc = fed.deliver(sp, docs["out-of-range"], dict(OUT))
+    accepted = resp is not None
+    clock.set_now(None)
+    viol = []
+    if accepted and "Mallory" in repr(getattr(resp, "ava", None)):
+        viol.append({"key": "C04/accepted-outside-validity-window:advice-assertion",
+                     "what": "the %s advice assertion carries %s %d s beyond the edge (allowance %d) and contributed %r to the accepted identity" % (
+                         case["other"], bound, off, W, resp.ava), "detail": {"document": docs["out-of-range"][:8000], "now": clock.iso(T0)}})
+    return {"outcome": "accept" if accepted else "reject:" + (type(exc).__name__ if exc is not None else "None"), "nontrivial": shape_ok or accepted, "violations": viol,
+            "counters": {"multi_cases": 1, "advice_cases": 1, "must_reject": 1, "multi_shape_accepted_when_all_in_range": int(shape_ok),
+                         "multi_shape_refused_anyway": int(not shape_ok)}}
 
 
 def run_case(case, ctx):
